@@ -64,6 +64,8 @@ func parseDirective(doc string, o *HarnessOpts) {
 				o.ExpectFail = p[1] == "fail"
 			case "maxconc":
 				o.MaxConc, _ = strconv.Atoi(p[1])
+			case "budget":
+				o.BudgetS, _ = strconv.Atoi(p[1])
 			case "use":
 				o.Use = strings.Split(p[1], ",")
 			case "workers":
